@@ -393,7 +393,7 @@ enum Ctx {
 /// elements is *definitely* outside the language.
 pub fn struct_claim(seq: &[u64]) -> Claim {
     let mut st: Vec<Ctx> = Vec::new();
-    for &it in seq {
+    for (pos, &it) in seq.iter().enumerate() {
         let top = st.last().copied();
         match top {
             Some(Ctx::Raw) => {
@@ -409,9 +409,16 @@ pub fn struct_claim(seq: &[u64]) -> Claim {
                         st.pop();
                     }
                     8 => st.push(Ctx::Comment),
-                    // other tags inside a comment are parsed by the implementation
-                    // in an implementation-defined way: no claim for this input
-                    _ => return Claim::NoClaim,
+                    // other tags inside a comment are parsed by the implementation in an
+                    // implementation-defined way: no claim for this input -- except that a comment
+                    // can only ever be closed by an `endcomment`: if none follows, the input is
+                    // unclosed however the inside is read
+                    _ => {
+                        if !seq[pos + 1..].contains(&9) {
+                            return Claim::MustReject("comment block never closed");
+                        }
+                        return Claim::NoClaim;
+                    }
                 }
                 continue;
             }
